@@ -2,6 +2,7 @@
    the specification of Spec/RationalSpec.lean on every line printed by harness/h_rational.cpp. -/
 import Driver.Common
 import GivaroModel.Spec.RationalSpec
+import GivaroModel.Model.RationalState
 -- @driver-mode rational Driver.Rational.rationalLine
 namespace Driver.Rational
 open Driver
@@ -29,10 +30,18 @@ def showOut (o : Out) : String :=
 
 structure Case where
   pre : Bool
-  mGmp : Out                     -- model with GMP's mpz_cmpabs
-  mUnit : Out                    -- model with the ±1-normalised mpz_cmpabs
+  op : Op                        -- the call, evaluated through `step` (mode threading included)
   spec : Out → Bool              -- does an output meet the specification?
   signOnly : Bool := false       -- three-way results: only the sign is compared with the model
+  setsMode : Bool := false       -- SetReduce / SetNoReduce: the only calls allowed to write Rational::flags
+
+def valOut (v : Val) : Out :=
+  match v with
+  | .q r => some [r.num, r.den]
+  | .z i => some [i]
+  | .b x => some [if x then 1 else 0]
+  | .unit => some []
+  | .exc => none
 
 /-- the output must denote `n/d`; `exp = none`: the call must throw.  Canonical when `canon`. -/
 def specQ (canon : Bool) (exp : Option (Int × Int)) (o : Out) : Bool :=
@@ -48,12 +57,12 @@ def specSign (z : Int) (o : Out) : Bool :=
   | _ => false
 def frac (n d : Int) : Option (Int × Int) := if d = 0 then none else some (n, d)
 
-def qcase (pre : Bool) (canon : Bool) (m : (Int → Int → Int) → Option QRep) (exp : Option (Int × Int)) : Case :=
-  { pre := pre, mGmp := qOut (m cGmp), mUnit := qOut (m cUnit), spec := specQ canon exp }
-def zcase (pre : Bool) (m : (Int → Int → Int) → Int) (z : Int) : Case :=
-  { pre := pre, mGmp := zOut (m cGmp), mUnit := zOut (m cUnit), spec := specZ z }
-def bcase (pre : Bool) (m : (Int → Int → Int) → Bool) (b : Bool) : Case :=
-  { pre := pre, mGmp := bOut (m cGmp), mUnit := bOut (m cUnit), spec := specZ (if b then 1 else 0) }
+def qcase (pre : Bool) (canon : Bool) (op : Op) (exp : Option (Int × Int)) : Case :=
+  { pre := pre, op := op, spec := specQ canon exp }
+def zcase (pre : Bool) (op : Op) (z : Int) : Case :=
+  { pre := pre, op := op, spec := specZ z }
+def bcase (pre : Bool) (op : Op) (b : Bool) : Case :=
+  { pre := pre, op := op, spec := specZ (if b then 1 else 0) }
 
 def inS32 (x : Int) : Bool := -2147483648 ≤ x && x < 2147483648
 def inU32 (x : Int) : Bool := 0 ≤ x && x < 4294967296
@@ -65,127 +74,185 @@ def powFrac (a : QRep) (e : Int) : Option (Int × Int) :=
   if e ≥ 0 then frac (ipow a.num e.toNat) (ipow a.den e.toNat)
   else frac (ipow a.den (-e).toNat) (ipow a.num (-e).toNat)
 
-def parseDec (s : String) : Option Int :=
-  (String.ofList (s.toList.filter (· != ' '))).toInt?
-/-- token grammar of `operator>>`: `int` or `int / int` with optional blanks (`_` encodes a blank) -/
+def skipBlanks : List Char → List Char
+  | ' ' :: t => skipBlanks t
+  | l => l
+/-- `in >> Integer`: leading blanks, optional '-', decimal digits -/
+def takeInt (l : List Char) : Option (Int × List Char) :=
+  let l := skipBlanks l
+  let (neg, l) := match l with
+    | '-' :: t => (true, t)
+    | _ => (false, l)
+  let ds := l.takeWhile Char.isDigit
+  if ds.isEmpty then none
+  else
+    let v : Nat := ds.foldl (fun acc ch => acc * 10 + (ch.toNat - '0'.toNat)) 0
+    some ((if neg then -(v : Int) else (v : Int)), l.dropWhile Char.isDigit)
+/-- token grammar of `operator>>`: `int`, then blanks, then — only if the next character is a slash — `int`; anything else is
+    left in the stream (`_` encodes a blank, `~` the empty string) -/
 def parseText (tok : String) : Option (Int × Option Int) :=
-  let s := String.ofList (tok.toList.filterMap (fun ch => if ch == '_' then some ' ' else if ch == '~' then none else some ch))
-  match s.splitOn "/" with
-  | [n] => (parseDec n).map (fun n => (n, none))
-  | [n, d] => match parseDec n, parseDec d with
-    | some n, some d => some (n, some d)
-    | _, _ => none
-  | _ => none
+  let cs := tok.toList.filterMap (fun ch => if ch == '_' then some ' ' else if ch == '~' then none else some ch)
+  match takeInt cs with
+  | none => none
+  | some (n, rest) =>
+    match skipBlanks rest with
+    | '/' :: t => (takeInt t).map (fun r => (n, some r.1))
+    | _ => some (n, none)
+
+/-- the output is one IEEE bit pattern accepted by `floatCheck` -/
+def specFloat (prec eb k : Nat) (n d : Int) (o : Out) : Bool :=
+  match o with
+  | some [bits] => floatCheck prec eb k n d bits
+  | _ => false
+
+def fitsS (w : Nat) (x : Int) : Bool := -(2 ^ (w - 1)) ≤ x && x < 2 ^ (w - 1)
+def fitsU (w : Nat) (x : Int) : Bool := 0 ≤ x && x < 2 ^ w
 
 def entry (key : String) (a : Array Int) (raw : List String) : Option Case :=
   let red : Bool := a.getD 0 1 != 0
   let A : QRep := ⟨a.getD 1 0, a.getD 2 0⟩
   let B : QRep := ⟨a.getD 3 0, a.getD 4 0⟩
   let C : QRep := ⟨a.getD 5 0, a.getD 6 0⟩
-  let vA := validB red A
-  let vAB := vA && validB red B
-  let vABC := vAB && validB red C
+  -- operands: any stored pair with a positive denominator, in either mode (a value built in NoReduce mode may be used
+  -- after SetReduce); the result must be canonical when the mode is Reduce *and* the operands are canonical
+  let vA := A.den > 0
+  let vAB := vA && B.den > 0
+  let vABC := vAB && C.den > 0
+  let cA := red && canonB A
+  let cAB := cA && canonB B
+  let cABC := cAB && canonB C
   let sum := frac (A.num * B.den + B.num * A.den) (A.den * B.den)
   let dif := frac (A.num * B.den - B.num * A.den) (A.den * B.den)
   let prd := frac (A.num * B.num) (A.den * B.den)
   let quo := frac (A.num * B.den) (A.den * B.num)
   let i := a.getD 3 0
   let I : QRep := ofWord i
-  -- a*b ± c as fractions
   let abn := A.num * B.num
   let abd := A.den * B.den
   let bcn := B.num * C.num
   let bcd := B.den * C.den
+  let tq := truncSpec A.num A.den
+  -- arithmetic: canonical result in Reduce mode on canonical operands; in NoReduce mode the stored pair must be the closed
+  -- formula of Spec/RationalSpec.lean (no hidden gcd) — and in every case the exact value with a positive denominator
+  let ar (pre canon : Bool) (op : Op) (exp : Option (Int × Int)) (nr : QRep) : Case :=
+    { pre := pre, op := op,
+      spec := fun o => specQ canon exp o && (red || exp.isNone || o == some [nr.num, nr.den]) }
+  let mAB := mulNR A B
+  let mBC := mulNR B C
   match key with
-  | "add" | "fadd" => some (qcase vAB red (fun _ => add red A B) sum)
-  | "addin" | "faddin" => some (qcase vAB red (fun _ => addin red A B) sum)
-  | "sub" | "fsub" => some (qcase vAB red (fun _ => sub red A B) dif)
-  | "subin" | "fsubin" => some (qcase vAB red (fun _ => subin red A B) dif)
-  | "mul" | "fmul" => some (qcase vAB red (fun c => mul c red A B) prd)
-  | "mulin" | "fmulin" => some (qcase vAB red (fun c => mulin c red A B) prd)
-  | "div" | "fdiv" => some (qcase vAB red (fun c => div c red A B) quo)
-  | "divin" | "fdivin" => some (qcase vAB red (fun _ => divin red A B) quo)
-  | "addi" => some (qcase (vA && inS32 i) red (fun _ => add red A I) (frac (A.num + i * A.den) A.den))
-  | "subi" => some (qcase (vA && inS32 i) red (fun _ => sub red A I) (frac (A.num - i * A.den) A.den))
-  | "muli" => some (qcase (vA && inS32 i) red (fun c => mul c red A I) (frac (A.num * i) A.den))
-  | "divi" => some (qcase (vA && inS32 i) red (fun c => div c red A I) (frac A.num (A.den * i)))
-  | "iadd" => some (qcase (vA && inS32 i) red (fun _ => add red I A) (frac (A.num + i * A.den) A.den))
-  | "isub" => some (qcase (vA && inS32 i) red (fun _ => sub red I A) (frac (i * A.den - A.num) A.den))
-  | "imul" => some (qcase (vA && inS32 i) red (fun c => mul c red I A) (frac (A.num * i) A.den))
-  | "idiv" => some (qcase (vA && inS32 i) red (fun c => div c red I A) (frac (i * A.den) A.num))
-  | "faxpy" => some (qcase vABC red (fun c => axpy c red A B C) (frac (abn * C.den + C.num * abd) (abd * C.den)))
-  | "fmaxpy" => some (qcase vABC red (fun c => maxpy c red A B C) (frac (C.num * abd - abn * C.den) (abd * C.den)))
-  | "faxmy" => some (qcase vABC red (fun c => axmy c red A B C) (frac (abn * C.den - C.num * abd) (abd * C.den)))
-  | "faxpyin" => some (qcase vABC red (fun c => axpyin c red A B C) (frac (A.num * bcd + bcn * A.den) (A.den * bcd)))
-  | "fmaxpyin" => some (qcase vABC red (fun c => maxpyin c red A B C) (frac (A.num * bcd - bcn * A.den) (A.den * bcd)))
-  | "faxmyin" => some (qcase vABC red (fun c => axmyin c red A B C) (frac (bcn * A.den - A.num * bcd) (A.den * bcd)))
-  | "neg" => some (qcase vA red (fun _ => neg A) (frac (-A.num) A.den))
-  | "pos" | "fassign" => some (qcase vA red (fun _ => some A) (frac A.num A.den))
-  | "abs" => some (qcase vA red (fun _ => abs A) (frac (iabs A.num) A.den))
-  | "fneg" | "fnegin" => some (qcase vA red (fun _ => some (fneg A)) (frac (-A.num) A.den))
-  | "finv" | "finvin" => some (qcase (vA && A.num != 0) red (fun _ => some (finv A)) (frac A.den A.num))
-  | "reduce" => some (qcase vA true (fun _ => some (reduce A)) (frac A.num A.den))
-  | "fget" => some { pre := vA, mGmp := some [A.num, A.den], mUnit := some [A.num, A.den], spec := fun o => o == some [A.num, A.den] }
-  | "c_copy" => some { pre := vA, mGmp := some [A.num, A.den, A.num, A.den], mUnit := some [A.num, A.den, A.num, A.den],
-                       spec := fun o => o == some [A.num, A.den, A.num, A.den] }
-  | "powi" => some (qcase (vA && inS64 i && !(A.num == 0 && i < 0)) red (fun _ => some (powS64 A i)) (powFrac A i))
-  | "powu32" | "fpowu32" => some (qcase (vA && inU32 i) red (fun _ => some (powU A i)) (powFrac A i))
-  | "powu64" | "fpowu64" => some (qcase (vA && inU64 i) red (fun _ => some (powU A i)) (powFrac A i))
-  | "floor" => some (zcase vA (fun _ => floor A) (floorSpec A.num A.den))
-  | "ceil" => some (zcase vA (fun _ => ceil A) (ceilSpec A.num A.den))
-  | "trunc" => some (zcase vA (fun _ => trunc A) (truncSpec A.num A.den))
-  | "round" => some (zcase vA (fun c => round c A) (roundSpec A.num A.den))
-  | "lt" => some (bcase vAB (fun c => lt c A B) (cmpSpec A B < 0))
-  | "gt" => some (bcase vAB (fun c => gt c A B) (cmpSpec A B > 0))
-  | "le" => some (bcase vAB (fun c => le c A B) (cmpSpec A B ≤ 0))
-  | "ge" => some (bcase vAB (fun c => ge c A B) (cmpSpec A B ≥ 0))
-  | "eq" | "fareEqual" => some (bcase vAB (fun c => eq c A B) (cmpSpec A B == 0))
-  | "ne" | "fareNEqual" => some (bcase vAB (fun c => ne c A B) (cmpSpec A B != 0))
-  | "compare" => some { pre := vAB, mGmp := zOut (compare cGmp A B), mUnit := zOut (compare cUnit A B),
-                        spec := specSign (cmpSpec A B), signOnly := true }
-  -- absCompare is the helper `compare` calls after its zero tests: two zeros with different (NoReduce) denominators are outside its contract
-  | "absCompare" => some { pre := vAB && !(A.num == 0 && B.num == 0 && A.den != B.den), mGmp := zOut (absCompare cGmp A B), mUnit := zOut (absCompare cUnit A B),
+  | "setred" => some { pre := true, op := .setReduce, spec := fun o => o == some [], setsMode := true }
+  | "setnored" => some { pre := true, op := .setNoReduce, spec := fun o => o == some [], setsMode := true }
+  | "add" | "fadd" => some (ar vAB cAB (.add A B) sum (addNR A B))
+  | "addin" | "faddin" => some (ar vAB cAB (.addin A B) sum (addNR A B))
+  | "sub" | "fsub" => some (ar vAB cAB (.sub A B) dif (subNR A B))
+  | "subin" | "fsubin" => some (ar vAB cAB (.subin A B) dif (subNR A B))
+  | "mul" | "fmul" => some (ar vAB cAB (.mul A B) prd (mulNR A B))
+  | "mulin" | "fmulin" => some (ar vAB cAB (.mulin A B) prd (mulinNR A B))
+  | "div" | "fdiv" => some (ar vAB cAB (.div A B) quo (divNR A B))
+  | "divin" | "fdivin" => some (ar vAB cAB (.divin A B) quo (divinNR A B))
+  -- s op= s : the same object on both sides (the harness passes one object; the operands are equal pairs)
+  | "addself" => some (ar vA cA (.addin A A) (frac (2 * A.num) A.den) (addNR A A))
+  | "subself" => some (ar vA cA (.subin A A) (frac 0 1) (subNR A A))
+  | "addi" => some (ar (vA && inS32 i) cA (.add A I) (frac (A.num + i * A.den) A.den) (addNR A I))
+  | "subi" => some (ar (vA && inS32 i) cA (.sub A I) (frac (A.num - i * A.den) A.den) (subNR A I))
+  | "muli" => some (ar (vA && inS32 i) cA (.mul A I) (frac (A.num * i) A.den) (mulNR A I))
+  | "divi" => some (ar (vA && inS32 i) cA (.div A I) (frac A.num (A.den * i)) (divNR A I))
+  | "iadd" => some (ar (vA && inS32 i) cA (.add I A) (frac (A.num + i * A.den) A.den) (addNR I A))
+  | "isub" => some (ar (vA && inS32 i) cA (.sub I A) (frac (i * A.den - A.num) A.den) (subNR I A))
+  | "imul" => some (ar (vA && inS32 i) cA (.mul I A) (frac (A.num * i) A.den) (mulNR I A))
+  | "idiv" => some (ar (vA && inS32 i) cA (.div I A) (frac (i * A.den) A.num) (divNR I A))
+  | "faxpy" => some (ar vABC cABC (.axpy A B C) (frac (abn * C.den + C.num * abd) (abd * C.den)) (addNR mAB C))
+  | "fmaxpy" => some (ar vABC cABC (.maxpy A B C) (frac (C.num * abd - abn * C.den) (abd * C.den)) (subNR C mAB))
+  | "faxmy" => some (ar vABC cABC (.axmy A B C) (frac (abn * C.den - C.num * abd) (abd * C.den)) (subNR mAB C))
+  | "faxpyin" => some (ar vABC cABC (.axpyin A B C) (frac (A.num * bcd + bcn * A.den) (A.den * bcd)) (addNR A mBC))
+  | "fmaxpyin" => some (ar vABC cABC (.maxpyin A B C) (frac (A.num * bcd - bcn * A.den) (A.den * bcd)) (subNR A mBC))
+  | "faxmyin" => some (ar vABC cABC (.axmyin A B C) (frac (bcn * A.den - A.num * bcd) (A.den * bcd)) (subNR mBC A))
+  | "neg" => some (qcase vA cA (.neg A) (frac (-A.num) A.den))
+  | "pos" | "fassign" | "finit0" | "c_copyctor" | "c_assign" | "c_copy" | "c_logcpy" => some (qcase vA cA (.copy A) (frac A.num A.den))
+  | "abs" => some (qcase vA cA (.abs A) (frac (iabs A.num) A.den))
+  | "fneg" | "fnegin" => some (qcase vA cA (.fneg A) (frac (-A.num) A.den))
+  | "finv" | "finvin" | "finvself" => some (qcase (vA && A.num != 0) cA (.finv A) (frac A.den A.num))
+  | "reduce" => some (qcase vA true (.reduce A) (frac A.num A.den))
+  | "nume" | "fget_num" => some (zcase vA (.nume A) A.num)
+  | "deno" | "fget_den" => some (zcase vA (.deno A) A.den)
+  | "powi" => some (qcase (vA && inS64 i && !(A.num == 0 && i < 0)) cA (.powS A i) (powFrac A i))
+  | "powu32" | "fpowu32" => some (qcase (vA && inU32 i) cA (.powU A i) (powFrac A i))
+  | "powu64" | "fpowu64" => some (qcase (vA && inU64 i) cA (.powU A i) (powFrac A i))
+  | "floor" => some (zcase vA (.floor A) (floorSpec A.num A.den))
+  | "ceil" => some (zcase vA (.ceil A) (ceilSpec A.num A.den))
+  | "trunc" => some (zcase vA (.trunc A) tq)
+  | "round" => some (zcase vA (.round A) (roundSpec A.num A.den))
+  -- conversions to words: the truncated value, whenever it fits the type (otherwise the C++ conversion is not specified)
+  | "to_i64" => some (zcase (vA && fitsS 64 tq) (.toS64 A) tq)
+  | "to_u64" => some (zcase (vA && fitsU 64 tq) (.toU64 A) tq)
+  | "to_i32" => some (zcase (vA && fitsS 32 tq) (.toS32 A) tq)
+  | "to_u32" => some (zcase (vA && fitsU 32 tq) (.toU32 A) tq)
+  | "to_i16" => some (zcase (vA && fitsS 16 tq) (.toS16 A) tq)
+  | "to_u16" => some (zcase (vA && fitsU 16 tq) (.toU16 A) tq)
+  | "to_i8" => some (zcase (vA && fitsS 8 tq) (.toS8 A) tq)
+  | "to_u8" => some (zcase (vA && fitsU 8 tq) (.toU8 A) tq)
+  -- conversions to floating point (bit patterns): within 2^-51 (double) / 2^-22 (float) of the value, normal range only
+  | "to_dbl" => some { pre := vA && toDoubleBits A != -1, op := .toDouble A, spec := specFloat 53 11 51 A.num A.den }
+  | "to_flt" => some { pre := vA && toFloatBits A != -1, op := .toFloat A, spec := specFloat 24 8 22 A.num A.den }
+  -- operator%(Integer): some x with x * den ≡ num (mod r), for r coprime to the denominator; r = 0 throws
+  | "modz" =>
+    let r := a.getD 3 0
+    some { pre := vA && (r == 0 || Int.gcd A.den r == 1), op := .modZ A r,
+           spec := fun o => if r == 0 then o == none else
+             match o with
+             | some [x] => (x * A.den - A.num) % r == 0
+             | _ => false }
+  | "lt" => some (bcase vAB (.lt A B) (cmpSpec A B < 0))
+  | "gt" => some (bcase vAB (.gt A B) (cmpSpec A B > 0))
+  | "le" => some (bcase vAB (.le A B) (cmpSpec A B ≤ 0))
+  | "ge" => some (bcase vAB (.ge A B) (cmpSpec A B ≥ 0))
+  | "eq" | "fareEqual" => some (bcase vAB (.eq A B) (cmpSpec A B == 0))
+  | "ne" | "fareNEqual" => some (bcase vAB (.ne A B) (cmpSpec A B != 0))
+  | "compare" => some { pre := vAB, op := .compare A B, spec := specSign (cmpSpec A B), signOnly := true }
+  -- absCompare is the helper `compare` calls after its zero tests: two zeros with different denominators are outside its contract
+  | "absCompare" => some { pre := vAB && !(A.num == 0 && B.num == 0 && A.den != B.den), op := .absCompare A B,
                            spec := specSign (cmpSpec ⟨iabs A.num, A.den⟩ ⟨iabs B.num, B.den⟩), signOnly := true }
-  | "fisZero" => some (bcase vA (fun c => compare c A ⟨0, 1⟩ == 0) (A.num == 0))
-  | "fisOne" => some (bcase vA (fun c => compare c A ⟨1, 1⟩ == 0) (A.num == A.den))
-  | "fisMOne" => some (bcase vA (fun c => compare c A ⟨-1, 1⟩ == 0) (A.num == -A.den))
-  | "fisUnit" => some (bcase vA (fun _ => !(isZero A)) (A.num != 0))
-  | "isZero" => some (bcase vA (fun _ => isZero A) (A.num == 0))
+  | "fisZero" => some (bcase vA (.fisZero A) (A.num == 0))
+  | "fisOne" => some (bcase vA (.fisOne A) (A.num == A.den))
+  | "fisMOne" => some (bcase vA (.fisMOne A) (A.num == -A.den))
+  | "fisUnit" => some (bcase vA (.fisUnit A) (A.num != 0))
+  | "isZero" => some (bcase vA (.isZero A) (A.num == 0))
   -- the free predicates isOne/isMOne/isInteger test the stored pair: they are specified on canonical values
-  | "isOne" => some (bcase (validB true A) (fun _ => isOne A) (A.num == A.den))
-  | "isMOne" => some (bcase (validB true A) (fun _ => isMOne A) (A.num == -A.den))
-  | "isInteger" => some (bcase (validB true A) (fun _ => isInteger A) (A.num % A.den == 0))
-  | "sign" | "fsign" => some (zcase vA (fun _ => sign A) (isign A.num))
+  | "isOne" => some (bcase (canonB A) (.isOne A) (A.num == A.den))
+  | "isMOne" => some (bcase (canonB A) (.isMOne A) (A.num == -A.den))
+  | "isInteger" => some (bcase (canonB A) (.isInteger A) (A.num % A.den == 0))
+  | "sign" | "fsign" => some (zcase vA (.sign A) (isign A.num))
   -- construction (operands are words / integers, not rationals: a[1], a[2], a[3])
-  | "c_neutral" => some (qcase true true (fun _ => some (ofNeutral (A.num != 0))) (frac (if A.num != 0 then 1 else 0) 1))
-  | "c_i32" | "finit_i32" => some (qcase (inS32 A.num) true (fun _ => some (ofWord A.num)) (frac A.num 1))
-  | "c_u32" | "finit_u32" => some (qcase (inU32 A.num) true (fun _ => some (ofWord A.num)) (frac A.num 1))
-  | "c_i64" | "finit_i64" => some (qcase (inS64 A.num) true (fun _ => some (ofWord A.num)) (frac A.num 1))
-  | "c_u64" | "finit_u64" => some (qcase (inU64 A.num) true (fun _ => some (ofWord A.num)) (frac A.num 1))
-  | "c_Z" | "finit_Z" => some (qcase true true (fun _ => some (ofInteger A.num)) (frac A.num 1))
-  | "c2_i32" => some (qcase (inS32 A.num && inS32 A.den) true (fun _ => mk2S A.num A.den) (frac A.num A.den))
-  | "c2_i64" => some (qcase (inS64 A.num && inS64 A.den) true (fun _ => mk2S A.num A.den) (frac A.num A.den))
-  | "c2_u32" => some (qcase (inU32 A.num && inU32 A.den) true (fun _ => mk2U A.num A.den) (frac A.num A.den))
-  | "c2_u64" => some (qcase (inU64 A.num && inU64 A.den) true (fun _ => mk2U A.num A.den) (frac A.num A.den))
-  | "c2_Z" | "finit_ZZ" => some (qcase true true (fun _ => mk3 A.num A.den 1) (frac A.num A.den))
-  | "c3_Z" => some (qcase true (i == 1) (fun _ => mk3 A.num A.den i) (frac A.num A.den))
+  | "c_neutral" => some (qcase true true (.ofNeutral (A.num != 0)) (frac (if A.num != 0 then 1 else 0) 1))
+  | "c_noinit" | "c_default" | "c_initend" | "c_zero" | "fc_zero" => some (qcase true true (.ofWord 0) (frac 0 1))
+  | "c_one" | "fc_one" => some (qcase true true (.ofWord 1) (frac 1 1))
+  | "c_mone" => some (qcase true true (.ofWord (-1)) (frac (-1) 1))
+  | "fc_mone" => some (qcase true true (.neg ⟨1, 1⟩) (frac (-1) 1))      -- QField(): mOne(-one)
+  | "c_i32" | "finit_i32" => some (qcase (inS32 A.num) true (.ofWord A.num) (frac A.num 1))
+  | "c_u32" | "finit_u32" => some (qcase (inU32 A.num) true (.ofWord A.num) (frac A.num 1))
+  | "c_i64" | "finit_i64" => some (qcase (inS64 A.num) true (.ofWord A.num) (frac A.num 1))
+  | "c_u64" | "finit_u64" => some (qcase (inU64 A.num) true (.ofWord A.num) (frac A.num 1))
+  | "c_Z" | "finit_Z" => some (qcase true true (.ofInteger A.num) (frac A.num 1))
+  | "c2_i32" => some (qcase (inS32 A.num && inS32 A.den) true (.ofPairS A.num A.den) (frac A.num A.den))
+  | "c2_i64" => some (qcase (inS64 A.num && inS64 A.den) true (.ofPairS A.num A.den) (frac A.num A.den))
+  | "c2_u32" => some (qcase (inU32 A.num && inU32 A.den) true (.ofPairU A.num A.den) (frac A.num A.den))
+  | "c2_u64" => some (qcase (inU64 A.num && inU64 A.den) true (.ofPairU A.num A.den) (frac A.num A.den))
+  | "c2_Z" | "finit_ZZ" => some (qcase true true (.ofPairZ A.num A.den 1) (frac A.num A.den))
+  | "c3_Z" => some (qcase true (i == 1) (.ofPairZ A.num A.den i) (frac A.num A.den))
   | "c_dbl" | "finit_dbl" =>
     let s := a.getD 1 0
     let e := a.getD 2 0
     let m := a.getD 3 0
     let f := doubleFrac s e m
     some (qcase ((s == 0 || s == 1) && 0 ≤ e && e < 2047 && 0 ≤ m && m < 4503599627370496) red
-      (fun _ => ofDouble red s e m) (frac f.1 f.2))
-  | "c_str" =>
+      (.ofDouble s e m) (frac f.1 f.2))
+  | "c_str" | "fread" =>
     match raw with
     | [_, tok] =>
       match parseText tok with
-      | some (n, d) => some (qcase true true (fun _ => ofText n d) (frac n (d.getD 1)))
+      | some (n, d) => some (qcase true true (.ofText n d) (frac n (d.getD 1)))
       | none => none
     | _ => none
-  | "fconst" =>
-    let l : Out := some [0, 1, 1, 1, -1, 1, 0, 1, 1, 1, -1, 1]
-    some { pre := true, mGmp := l, mUnit := l, spec := fun o => o == l }
   | _ => none
 
 end Rat10
@@ -194,21 +261,38 @@ open Rat10
 def rationalLine (line : String) : String :=
   match splitLine line with
   | none => "BAD empty"
-  | some (key, args, res) =>
-    -- `c_str` carries a text token: it is not a number
-    let nums : Option (List Int) := if key == "c_str" then (args.take 1).mapM parseHexInt else parseAll args
-    match nums with
-    | none => "BAD args | " ++ line
-    | some a =>
+  | some (key, args, resAll) =>
+    -- `c_str` / `fread` carry a text token: it is not a number
+    let textKey := key == "c_str" || key == "fread"
+    let nums : Option (List Int) := if textKey then (args.take 1).mapM parseHexInt else parseAll args
+    -- results: `<outputs> ; <mode after the call> <machine-level writes to Rational::flags during the call, -1 = not observed>`
+    let res := resAll.takeWhile (· != ";")
+    let trailer := (resAll.dropWhile (· != ";")).drop 1
+    match nums, parseAll trailer with
+    | some a, some [modeAfter, writes] =>
+      if key == "to_str" || key == "fwrite" || key == "print" || key == "fsig" then
+        -- text out: operator std::string() is "num/den" of the stored pair; print / QField::write omit a denominator ≤ 1;
+        -- QField::write(ostream&) is the domain signature "R" (read back by QField::read(istream&))
+        let A : QRep := ⟨a.toArray.getD 1 0, a.toArray.getD 2 0⟩
+        let full := toString A.num ++ "/" ++ toString A.den
+        let want := if key == "fsig" then "R" else if key == "to_str" || A.den > 1 then full else toString A.num
+        if res == [want] && modeAfter == a.toArray.getD 0 1 && writes ≤ 0 then "OK"
+        else "DIFF kind=BOTH model=" ++ want ++ " | " ++ line.trimAscii.toString
+      else
       match entry key a.toArray args with
       | none => "BAD nofunc | " ++ line
       | some cs =>
         if !cs.pre then "PRE" else
+        let red : Bool := a.toArray.getD 0 1 != 0
         let impl : Option Out :=
           if res == ["EXC"] then some none else (parseAll res).map some
         match impl with
         | none => "BAD result | " ++ line
         | some ir =>
+          let sG := step cGmp red cs.op
+          let sU := step cUnit red cs.op
+          let mG := valOut sG.2
+          let mU := valOut sU.2
           let specOk := cs.spec ir
           let same (m : Out) : Bool :=
             if cs.signOnly then
@@ -216,10 +300,15 @@ def rationalLine (line : String) : String :=
               | some [x], some [y] => isign x == isign y
               | _, _ => false
             else m == ir
-          let modelOk := same cs.mGmp && same cs.mUnit
-          if specOk && modelOk then "OK"
+          let modelOk := same mG && same mU
+          -- frame: the mode after the call is the model's, and nobody but SetReduce/SetNoReduce stores to Rational::flags
+          let modeOk := (modeAfter != 0) == sG.1 && sG.1 == sU.1
+          let frameOk := cs.setsMode || ((modeAfter != 0) == red && writes ≤ 0)
+          if specOk && modelOk && modeOk && frameOk then "OK"
           else
-            let kind := if !specOk && !modelOk then "BOTH" else if !specOk then "SPEC" else "MODEL"
-            s!"DIFF kind={kind} model={showOut cs.mGmp} modelUnit={showOut cs.mUnit} modelMeetsSpec={cs.spec cs.mGmp && cs.spec cs.mUnit} | {line.trimAscii.toString}"
+            let kind := if !frameOk then "SPEC" else if !specOk && !(modelOk && modeOk) then "BOTH" else if !specOk then "SPEC" else "MODEL"
+            s!"DIFF kind={kind} model={showOut mG} modelUnit={showOut mU} modelMode={sG.1} frameOk={frameOk} modelMeetsSpec={cs.spec mG && cs.spec mU} | {line.trimAscii.toString}"
+    | none, _ => "BAD args | " ++ line
+    | _, _ => "BAD trailer | " ++ line
 
 end Driver.Rational
